@@ -45,7 +45,7 @@ visible as `M_single_error_false` (its negation, with a witness evaluated by the
 | `isan` (`C17d`) | `isan_single_error_partial`, `isan_single_error_false`, `isan_strip_single_error_false` | Mod 37,36; 17, 25 or 26 characters |
 | `no.kontonr` (`C17e`) | `no_kontonr7_single_error`, `no_kontonr_single_error_partial`, `no_kontonr_single_error_false` | Luhn / own mod 11; no `0000` prefix |
 
-Not covered: `id.npwp.validate`, `de.idnr`, `iban` (not translated), `meid` (decimal/hex conversion).
+`de.idnr` and `id.npwp` are in `C17f`, `iban` in `C17i`.  Not covered: `meid` (decimal/hex conversion).
 
 ## the recurring glue, factored
 
